@@ -18,20 +18,21 @@ Monitors (all judged on what the real objects returned / what the wrapped callab
                coordinates around the point in dimension d (K = 1 per dimension, derivation below);
   bounds       a cache with function_boundaries and one without agree up to the rounding allowance.
 
-Rounding allowance (stated once, used by node / multilinear / errbound / bounds; computed from the RECORDED nodes):
-    tol = 1e-9 S + max(A_design, A_model)
-    A_design = 64 eps (1 + max_d rho_d)^3 S                      (DESIGN C14, frozen; rho_d = |x_d|max / h_d,min)
-    A_model  = 64 eps S prod_d [1 + 2 rho_d th1_d + 8 rho_d^2 (1 + rho_d) th2_d]
-               th1_d = min(1, H_d max|df/dx_d| / S_f), th2_d = min(4, 6 H_d^2 max|d2f/dx_d2| / S_f)
+Rounding allowance (stated once, used by node / multilinear / errbound / bounds):
+    tol = 1e-9 S + A_local,   A_local = 64 eps S prod_d [1 + 2 rho_d th1_d + 8 rho_d^2 (1 + rho_d) th2_d]
+    rho_d = (extent_d + 2 resolution_d) / h_d,min   (position of a cell in units of the cell width in the coordinates the
+            class normalises to [0, 1] over the area; h_d,min = smallest gap between RECORDED node coordinates)
+    th1_d = min(1, H_d max|df/dx_d| / S_f), th2_d = min(4, 6 H_d^2 max|d2f/dx_d2| / S_f)
   S_f = magnitude bound of the function (sum of absolute term magnitudes over the recorded hull), S = max(S_f,
   |bound_min|, |bound_max|) when value bounds are supplied ((v - min)/delta*delta + min rounds at eps (|v| + |min|)).
-  A_model is eps times the summed magnitude of the monomials of the cell cubic written in absolute coordinates (the
-  documented evaluation scheme): local coefficients a_0 <= S_f, a_1 ~ H f', a_2, a_3 <= 6 H^2 max|f''| get multiplied
-  by (2 rho)^k; for multilinear functions it reduces to prod_d (1 + 2 |x_d| |df/dx_d| / S_f), the cancellation of the
-  function itself.  Steep or under-resolved functions legitimately lose digits far from the origin; this term keeps
-  them from being reported.  The bounds clause allows 2 tol (two caches).  Comparisons whose allowance exceeds 1e-3 S
-  cannot separate a defect from cancellation: they are still judged but counted under <monitor>_weak, not under the
-  deciding monitor.
+  A_local is eps times the summed magnitude of the monomials of the cell cubic in the area-normalised coordinates (local
+  coefficients a_0 <= S_f, a_1 ~ H f', a_2, a_3 <= 6 H^2 max|f''|, multiplied by (2 rho)^k): the true conditioning of the
+  documented scheme.  It is translation invariant on purpose: the distance of the area from the origin must not cost
+  digits (the former absolute-coordinate evaluation, repaired in d28c1dd, lost eps (|x|/spacing)^3 per axis; the
+  unchanged code stays 4..5 orders of magnitude below tol at |x|/spacing up to 1e9).  Node exactness is thereby judged
+  relative to the magnitude of f.  The bounds clause allows 2 tol (two caches).  Comparisons whose allowance exceeds
+  1e-3 S (under-resolved steep functions in 3-D) cannot separate a defect from cancellation: they are still judged but
+  counted under <monitor>_weak.  far1d/far2d/far3d count the deciding comparisons made at |x|/spacing >= 1e4.
 
 Why K = 1: the cached interpolant is a tensor product of a 1-D operator P that matches values at the two cell nodes and
 uses secant slopes over the neighbouring nodes (P reproduces linear functions, |P g| <= 1.5 max|g|).  In 1-D
@@ -42,9 +43,11 @@ needs only the pure second derivatives and holds for any interpolant of this fam
 ("a small multiple of the squared node spacing times its maximum curvature").
 
 Mechanism classification: when a numerical clause fails, the SAME normalised function is cached on the SAME area
-translated to the origin; if the clause holds there, the failure is the translation-dependent cancellation of the
+translated to the origin; if the clause holds there, the failure is the translation-dependent cancellation of an
 absolute-coordinate polynomial and gets the key roundoff:<Class>:absolute-coordinate-cancellation; otherwise the
-clause's own key is reported.
+clause's own key is reported.  numpy.linalg.LinAlgError for an in-area point is reported as
+singular:<Class>:fine-grid-conditioning (>= 20000 cells: conditioning limit of the area-wide monomial basis, open
+finding for Caching2D) or singular:<Class>:coarse-grid (anything else).
 """
 import collections
 import math
@@ -61,7 +64,9 @@ import numpy as np
 ID = "C14"
 LEVEL = "exploration"
 RULE = ("random 1-/2-/3-D caching problems: area extent 1e-3..1e2 per axis at offsets 0..1e3 extents from the origin "
-        "(classes origin/near/mid/far), 2..80 nodes per axis (3-D: 2..24, thorough ..40) incl. resolution > extent, "
+        "(classes origin/near/mid/far), 2..80 nodes per axis (3-D: 2..24, thorough ..40) incl. resolution > extent, plus "
+        "the class farfine for all three dimensions alike (narrow finely resolved areas far from the origin: |x0| 1e3..1e6, "
+        "extent 0.1..100, node spacing 1e-2..1e-4 of the extent along one axis, |x|/spacing up to 1e9, curved functions), "
         "wrapped function from {constant, multilinear, quadratic, product of sines, sine of a sum, exponential, steep "
         "Gaussian}, value bounds absent/tight/loose/degenerate/narrow; 14..44 in-area points (uniform, on/near nominal "
         "nodes, 4e-7 inside the boundary, duplicates) and 6..10 out-of-area points driven through 4..5 fresh caches in "
@@ -81,16 +86,16 @@ TECHNIQUE = ("runtime monitoring: history independence (fresh caches driven with
              "reference-model oracle (multilinear exactness with computed cancellation allowance, h^2 max|f''| bound)")
 ASSUMPTIONS = ["wrapped functions are deterministic, finite and pure (the recording wrapper only appends to a list)",
                "in-area = at least 3e-7 inside every face of the area, out-of-area = at least 3e-7 outside one face",
-               "rounding allowance 1e-9 S + max(64 eps (1+|x|max/h)^3 S [DESIGN C14], eps x magnitude of the absolute-"
-               "coordinate monomials of the cell cubic); clauses whose allowance exceeds 1e-3 S count as *_weak only",
+               "rounding allowance 1e-9 S + 64 eps x magnitude of the monomials of the cell cubic in the area-normalised "
+               "coordinates (translation invariant); clauses whose allowance exceeds 1e-3 S count as *_weak only",
                "each case runs in a forked child (os.fork + pipe); a child killed by a signal is a violation crash:<Class>:<SIG>",
                "value bounds are finite with min <= max"]
 ASAN_MODULES = ['cherab.core.math.caching.caching1d', 'cherab.core.math.caching.caching2d', 'cherab.core.math.caching.caching3d', 'cherab.core.math.interpolators.utility']
 ASAN = dict(cases=600, workers=8, timecap=240)
 QUICK = dict(cases=600, workers=2, timecap=30)
 THOROUGH = dict(cases=40000, workers=16, timecap=600)
-REQUIRED = {"history": 3000, "repeat": 100, "outside_raise": 300, "outside_passthrough": 300, "inside": 3000,
-            "node": 1000, "multilinear": 500, "errbound": 1000, "bounds": 300}
+REQUIRED = {"history": 15000, "repeat": 1000, "outside_raise": 2000, "outside_passthrough": 4000, "inside": 25000,
+            "node": 4000, "multilinear": 1500, "errbound": 3000, "bounds": 3000, "far1d": 500, "far2d": 500, "far3d": 250}
 
 EPS = 2.220446049250313e-16
 SKIN = 3e-7
@@ -281,12 +286,49 @@ FKINDS = ["const", "multilinear", "multilinear", "multilinear", "quadratic", "qu
           "exp", "gauss", "gauss"]
 
 
+FARKINDS = ["multilinear", "quadratic", "quadratic", "sinprod", "sinprod", "sinsum", "exp", "gauss"]
+
+
 def gen_case(rng, tier):
     dim = int(rng.choice([1, 2, 3], p=[0.3, 0.4, 0.3]))
     kind = FKINDS[int(rng.integers(len(FKINDS)))]
-    offclass = str(rng.choice(["origin", "near", "mid", "far"], p=[0.35, 0.35, 0.2, 0.1]))
+    offclass = str(rng.choice(["origin", "near", "mid", "far", "farfine"], p=[0.31, 0.31, 0.17, 0.08, 0.13]))
     lo, hi, res, nn = [], [], [], []
-    for d in range(dim):
+    if offclass == "farfine":
+        # narrow, finely resolved area far from the origin (wavelength-like axes), the same for 1-D/2-D/3-D: absolute offset
+        # 1e3..1e6, node spacing 1e-2..1e-4 of the extent along one axis (|x|/spacing up to 1e9), curved functions
+        kind = FARKINDS[int(rng.integers(len(FARKINDS)))]
+        fine = int(rng.integers(dim))
+        budget = {1: 12000, 2: 60000, 3: 30000}[dim]
+        for d in range(dim):
+            e = float(10 ** rng.uniform(-1, 2))
+            x0 = float(10 ** rng.uniform(3, 6))
+            if rng.random() < 0.3:
+                x0 = float(round(x0))
+            a = x0 if rng.random() < 0.5 else -x0 - e
+            b = a + e
+            if d == fine:
+                sp = e * float(10 ** rng.uniform(-4, -2))
+                sp = max(sp, 2e-5, max(abs(a), abs(b)) / 1e9)
+                n = int(min(max(round(e / sp), 20), budget // (4 ** (dim - 1))))
+            else:
+                n = int(rng.integers(2, 9 if dim == 3 else 25))
+                if dim == 3 and d == 2 and fine != 2:
+                    n = int(min(n, max(2, budget // max(nn[0] * nn[1], 1))))
+            h = (b - a) / (n - 1 + float(rng.uniform(0.05, 0.95)))
+            lo.append(a)
+            hi.append(b)
+            res.append(float(h))
+            nn.append(n)
+        if dim > 1:   # keep the number of cells inside the memory budget whatever the position of the fine axis
+            other = 1
+            for d in range(dim):
+                if d != fine:
+                    other *= nn[d]
+            if nn[fine] * other > budget:
+                nn[fine] = max(20, budget // other)
+                res[fine] = float((hi[fine] - lo[fine]) / (nn[fine] - 1 + 0.5))
+    for d in range(dim if offclass != "farfine" else 0):
         e = float(10 ** rng.uniform(-3, 2))
         if offclass == "origin":
             a = -float(rng.uniform(0, 1)) * e
@@ -499,7 +541,7 @@ def _inside(p, lo, hi):
     return all(lo[d] + SKIN <= p[d] <= hi[d] - SKIN for d in range(len(p)))
 
 
-def _drive(ctx, cname, dim, f, lo, hi, res, nbe, bounds, seq, pts, outs, judge_outside=True):
+def _drive(ctx, cname, dim, f, lo, hi, res, nbe, bounds, seq, pts, outs, judge_outside=True, skey=None):
     """Run one history on a fresh cache.  Returns (cache, recorder, values per evaluation of in-area points, node calls)."""
     rec = Rec(f)
     cache = _make_cache(dim, rec, lo, hi, res, nbe, bounds)
@@ -515,6 +557,13 @@ def _drive(ctx, cname, dim, f, lo, hi, res, nbe, bounds, seq, pts, outs, judge_o
                 ctx.check(False, "inside:%s:raises-ValueError" % cname,
                           "ValueError for a point at least 3e-7 inside the caching area", monitor="inside",
                           point=p, lo=lo, hi=hi, error=str(e)[:200])
+                continue
+            except np.linalg.LinAlgError as e:
+                if skey is None:
+                    raise
+                ctx.check(False, skey, "numpy.linalg.LinAlgError (%s) instead of a value for a point inside the caching area: the "
+                          "constraint matrix of the cell cubic in the monomial basis of the normalised coordinates is numerically "
+                          "singular" % str(e)[:80], monitor="inside", point=p, lo=lo, hi=hi, res=res)
                 continue
             ctx.mon("inside")
             got.setdefault(k, []).append(v)
@@ -564,14 +613,15 @@ def _grid(nodes, dim):
 
 
 def _envelope(F, case, nodes, pts, bounds):
-    """Rounding allowance and local node spacings, from the recorded nodes only.
+    """Rounding allowance and local node spacings.
 
-    tol_round = 1e-9 S + max(A_design, A_model):
-      A_design = 64 eps (1 + max_d rho_d)^3 S                       (DESIGN C14, frozen)
-      A_model  = 64 eps S prod_d g_d,  g_d = 1 + 2 rho_d th1_d + 8 rho_d^2 (1 + rho_d) th2_d
-    rho_d = |x_d|max / h_d(min gap); th1_d = min(1, H_d max|df/dx_d| / S_f); th2_d = min(4, 6 H_d^2 max|d2f/dx_d2| / S_f).
-    A_model is eps times the summed magnitude of the monomial terms of the cell polynomial written in absolute
-    coordinates (cell coefficients a_0 <= S_f, a_1 ~ h f', a_2,a_3 <= 6 H^2 max|f''|, each multiplied by (2 rho)^k).
+    tol_round = 1e-9 S + A_local,  A_local = 64 eps S prod_d g_d,  g_d = 1 + 2 rho_d th1_d + 8 rho_d^2 (1 + rho_d) th2_d
+    rho_d = L_d / h_d with L_d = extent_d + 2 resolution_d (the span the class documents it normalises to [0, 1]) and h_d
+    the smallest gap between recorded node coordinates: the position of a cell in units of the cell width in the
+    coordinates normalised to the caching area.  th1_d = min(1, H_d max|df/dx_d| / S_f), th2_d = min(4, 6 H_d^2
+    max|d2f/dx_d2| / S_f).  A_local is eps times the summed magnitude of the monomials of the cell cubic in those local
+    coordinates (cell coefficients a_0 <= S_f, a_1 ~ H f', a_2, a_3 <= 6 H^2 max|f''|, each multiplied by (2 rho)^k).  It
+    does not depend on where the area lies: the distance from the origin must not cost digits.
     """
     dim = case["dim"]
     axes, xmax, hmin = _grid(nodes, dim)
@@ -597,19 +647,19 @@ def _envelope(F, case, nodes, pts, bounds):
         Hs[:, d] = np.maximum(np.maximum(a[i] - a[i - 1], a[i + 1] - a[i]), a[i + 2] - a[i + 1])
     G = F.grad(hull)
     cu = F.curv(hull)
-    rho, g = [], 1.0
+    rho, rho_abs, g = [], [], 1.0
     for d in range(dim):
         Hd = float(Hs[ok, d].max()) if ok.any() else (float(np.diff(axes[d]).max()) if axes[d].size > 1 else ext[d])
         th1 = min(1.0, Hd / ext[d] * G[d] / Sf)
         th2 = min(4.0, 6.0 * (Hd / ext[d]) ** 2 * cu[d] / Sf)
-        r = xmax[d] / hmin[d]
+        r = (ext[d] + 2.0 * case["res"][d]) / hmin[d]
         rho.append(r)
+        rho_abs.append(xmax[d] / hmin[d])
         g *= 1.0 + 2.0 * r * th1 + 8.0 * r * r * (1.0 + r) * th2
-    a_design = 64.0 * EPS * (1.0 + max(rho)) ** 3 * S
-    a_model = 64.0 * EPS * S * g
-    tol = 1e-9 * S + max(a_design, a_model)
-    return dict(S=S, Sf=Sf, tol=tol, weak=bool(tol > 1e-3 * S), rho=rho, axes=axes, Hs=Hs, ok=ok, cu=cu, ext=ext,
-                a_design=a_design, a_model=a_model)
+    a_local = 64.0 * EPS * S * g
+    tol = 1e-9 * S + a_local
+    return dict(S=S, Sf=Sf, tol=tol, weak=bool(tol > 1e-3 * S), rho=rho, rho_abs=rho_abs, axes=axes, Hs=Hs, ok=ok, cu=cu,
+                ext=ext, a_local=a_local)
 
 
 def _judge(ctx, name, err, tol, weak, cname=""):
@@ -663,7 +713,9 @@ def _clauses(ctx, case, F, f, lo, hi, bounds, pts, vals, nodes, cache, diag=Fals
         return fails, False
     env = _envelope(F, case, nodes, pts, bounds)
     S, allow, weak = env["S"], env["tol"], env["weak"]
-    info = dict(allowance=allow, a_design=env["a_design"], a_model=env["a_model"], rho=env["rho"], S=S, fkind=F.kind)
+    info = dict(allowance=allow, a_local=env["a_local"], rho_local=env["rho"], x_over_spacing=env["rho_abs"], S=S, fkind=F.kind)
+    far = max(env["rho_abs"]) >= 1e4 and not weak and not diag       # "far from the origin" = |x| / node spacing >= 1e4
+    farmon = "far%dd" % dim
     c = _NoCount() if diag else ctx
     judged = False
     P = np.array(pts, dtype=float).reshape(-1, dim)
@@ -675,10 +727,25 @@ def _clauses(ctx, case, F, f, lo, hi, bounds, pts, vals, nodes, cache, diag=Fals
         step = len(inn) / 60.0
         inn = [inn[int(j * step)] for j in range(60)]
     if inn:
-        gv = [cache(*n) for n in inn]
+        if case.get("_skey"):
+            keep, gv = [], []
+            for n in inn:
+                try:
+                    gv.append(cache(*n))
+                    keep.append(n)
+                except np.linalg.LinAlgError as e:
+                    if not diag:
+                        ctx.check(False, case["_skey"], "numpy.linalg.LinAlgError (%s) instead of a value at a sampling node inside "
+                                  "the caching area: the constraint matrix of the cell cubic is numerically singular" % str(e)[:80],
+                                  monitor="inside", point=list(n), lo=lo, hi=hi, res=case["res"])
+            inn = keep
+        else:
+            gv = [cache(*n) for n in inn]
         wv = [f(*n) for n in inn]
         k = _judge(c, "node", np.abs(np.array(gv) - np.array(wv)), allow, weak, CLS[dim])
         judged = True
+        if far:
+            ctx.mon(farmon, len(inn))
         if k is not None:
             fails.append(("node-exact", "value at a sampling node (an argument the wrapped function received) differs from "
                           "the wrapped function beyond the rounding allowance",
@@ -690,6 +757,8 @@ def _clauses(ctx, case, F, f, lo, hi, bounds, pts, vals, nodes, cache, diag=Fals
     if F.kind in ("const", "multilinear"):
         k = _judge(c, "multilinear", e, allow, weak, CLS[dim])
         judged = True
+        if far:
+            ctx.mon(farmon, int(e.size))
         if k is not None:
             fails.append(("multilinear", "a function that is linear in each coordinate is not reproduced within the rounding "
                           "allowance", dict(point=list(P[k]), got=float(V[k]), want=float(W[k]), tol=allow, **info)))
@@ -702,6 +771,8 @@ def _clauses(ctx, case, F, f, lo, hi, bounds, pts, vals, nodes, cache, diag=Fals
         if ok.any():
             k = _judge(c, "errbound", e[ok], tol[ok], weak, CLS[dim])
             judged = True
+            if far:
+                ctx.mon(farmon, int(ok.sum()))
             if k is not None:
                 kk = int(np.flatnonzero(ok)[k])
                 fails.append(("errbound", "interpolation error exceeds sum_d H_d^2 max|d2f/dx_d2| plus the rounding allowance",
@@ -720,7 +791,8 @@ def _bounds_clause(ctx, case, F, bounds, pts, vals, vals_nb, nodes_nb, diag=Fals
     if k is not None:
         fails.append(("bounds", "supplying function_boundaries changes the result beyond the rounding allowance",
                       dict(point=pts[k], with_bounds=vals[k], without_bounds=float(vals_nb[k]), tol=2 * env["tol"],
-                           rho=env["rho"], S=env["S"], bounds=bounds, bclass=case["bclass"], fkind=F.kind)))
+                           rho_local=env["rho"], x_over_spacing=env["rho_abs"], S=env["S"], bounds=bounds,
+                           bclass=case["bclass"], fkind=F.kind)))
     return fails, not env["weak"]
 
 
@@ -895,6 +967,11 @@ def _run_case(case, ctx):
     f = phys(F, case["_centre"], ext)
     bounds = case["bounds"]
     pts, outs = case["pts"], case["outs"]
+    ncell = 1
+    for n in case["nn"]:
+        ncell *= n
+    # (a LinAlgError on a coarse grid is a different defect from the conditioning limit of very fine grids)
+    skey = case["_skey"] = "singular:%s:%s" % (cname, "fine-grid-conditioning" if ncell >= 20000 else "coarse-grid")
     ctx.cls("dim%d" % dim)
     ctx.cls("func:" + F.kind)
     ctx.cls("offset:" + case["offclass"])
@@ -914,7 +991,7 @@ def _run_case(case, ctx):
     # ---- histories -------------------------------------------------------------------------------------
     runs = []
     for od in case["orders"]:
-        cache, rec, got, nodes = _drive(ctx, cname, dim, f, lo, hi, res, bool(od["nbe"]), bounds, od["seq"], pts, outs)
+        cache, rec, got, nodes = _drive(ctx, cname, dim, f, lo, hi, res, bool(od["nbe"]), bounds, od["seq"], pts, outs, skey=skey)
         runs.append(dict(name=od["name"], cache=cache, rec=rec, got=got, nodes=nodes))
         ctx.mon("caches")
         ctx.mon("wrapped_calls", len(rec.calls))
@@ -962,7 +1039,7 @@ def _run_case(case, ctx):
     # ---- value bounds must not change results ----------------------------------------------------------
     seq_in = [s for s in case["orders"][0]["seq"] if s[0] == "i"]
     if bounds is not None:
-        c2, rec2, got2, nodes2 = _drive(ctx, cname, dim, f, lo, hi, res, False, None, seq_in, pts, outs, judge_outside=False)
+        c2, rec2, got2, nodes2 = _drive(ctx, cname, dim, f, lo, hi, res, False, None, seq_in, pts, outs, judge_outside=False, skey=skey)
         ctx.mon("caches")
         if all(k in got2 for k in range(len(pts))) and nodes2:
             v2 = [got2[k][0] for k in range(len(pts))]
@@ -982,13 +1059,13 @@ def _run_case(case, ctx):
             tf = phys(F, t["_centre"], ext)
             shim = _Quiet(ctx)
             tc, trec, tgot, tnodes = _drive(shim, cname, dim, tf, t["lo"], t["hi"], res, False, bounds, seq_in, t["pts"], [],
-                                            judge_outside=False)
+                                            judge_outside=False, skey=skey)
             if all(k in tgot for k in range(len(pts))) and tnodes:
                 tvals = [tgot[k][0] for k in range(len(pts))]
                 tfail, _ = _clauses(ctx, t, F, tf, t["lo"], t["hi"], bounds, t["pts"], tvals, tnodes, tc, diag=True)
                 if bounds is not None:
                     tc2, _, tgot2, tn2 = _drive(shim, cname, dim, tf, t["lo"], t["hi"], res, False, None, seq_in, t["pts"], [],
-                                                judge_outside=False)
+                                                judge_outside=False, skey=skey)
                     if all(k in tgot2 for k in range(len(pts))) and tn2:
                         bf, _ = _bounds_clause(ctx, t, F, bounds, t["pts"], tvals, [tgot2[k][0] for k in range(len(pts))], tn2,
                                                diag=True)
